@@ -11,5 +11,6 @@ G=lean/CvssVerif/Generated
 .build/tables /repo $G/Tables.lean go/tables/reference.lean >/dev/null
 .build/decoders /repo $G/Decoders.lean go/decoders/reference.lean >/dev/null
 .build/wiring /repo $G/Wiring.lean go/wiring/reference.lean >/dev/null
+.build/glue /repo $G/Glue.lean go/glue/reference.lean >/dev/null
 git -C /repo status --short | grep -q . && echo "WARNING: /repo is not clean" || true
 git status --short $G
